@@ -1,7 +1,7 @@
 (* C11 — Library mapping tables never overlap and resolve to the newest live mapping.
    This file holds only the pinned property theorems, closed by `exact`,
    their `Print Assumptions`, and non-vacuity examples. *)
-From SV Require Import Model.LibMappings Spec.LibMappingsSpec Proofs.LibMappingsProofs.
+From SV Require Import Model.LibMappings Spec.LibMappingsSpec Proofs.LibMappingsProofs Generated.LibMappingsGen Proofs.LibMappingsGenProofs.
 From Coq Require Import Lia.
 Open Scope N_scope.
 
@@ -68,6 +68,42 @@ Theorem C11_actions_refine :
     run_actions debug (run kh) (run ph) acts = spec_actions debug kh ph acts.
 Proof. exact actions_refine. Qed.
 
+(* The tie by translation.  tools/xlate_lm.py re-reads fxprof-processed-profile/src/lib_mappings.rs on every run and emits lookup_impl, add_mapping,
+   remove_mapping, convert_address, lookup, new and clear as Gallina over the model's BTreeMap operations (Generated/LibMappingsGen.v); g_lm_run chains
+   them over a history.  They compute exactly what the hand-written model computes, so the theorems above are theorems about the translation of the
+   source as it is now. *)
+Theorem C11_translation_agrees :
+  forall ops : list op, g_lm_run ops = run ops.
+Proof. exact g_lm_run_eq. Qed.
+
+Theorem C11_translation_functions_agree :
+  forall (m : lm) (x : mapping) (s a : N),
+    g_add_mapping m x = add_mapping m x /\ fst (g_remove_mapping m s) = remove_mapping m s /\
+    g_lookup_impl m a = lookup_impl m a /\ g_convert_address m a = convert_address m a.
+Proof.
+  intros. split; [apply g_add_mapping_eq|split; [apply g_remove_mapping_eq|split; [apply g_lookup_impl_eq|apply g_convert_address_eq]]].
+Qed.
+
+(* hence the property about the translation: after any well-formed history the translated table has no overlapping entries, and the translated
+   convert_address resolves an address to the newest live mapping covering it - library and relative start + (address - start) - or to nothing *)
+Theorem C11_of_translation :
+  forall (ops : list op) (a : N), WfOps ops ->
+    ForallOrdPairs (fun x y => overlaps x y = false) (g_lm_run ops) /\
+    g_lookup_impl (g_lm_run ops) a = spec_lookup ops a /\
+    (forall y, spec_lookup ops a = Some y -> m_rel y + (a - m_start y) < two32 ->
+               g_convert_address (g_lm_run ops) a = Some (m_rel y + (a - m_start y), m_val y, false)) /\
+    (spec_lookup ops a = None -> g_convert_address (g_lm_run ops) a = None).
+Proof.
+  intros ops a HW. rewrite g_lm_run_eq. repeat split.
+  - exact (proj1 (C11_no_overlap ops HW)).
+  - rewrite g_lookup_impl_eq. exact (C11_refines_spec ops a HW).
+  - intros y HS HR. rewrite g_convert_address_eq. exact (C11_convert ops a y HW HS HR).
+  - intros HS. rewrite g_convert_address_eq. exact (C11_convert_none ops a HW HS).
+Qed.
+
+Print Assumptions C11_translation_agrees.
+Print Assumptions C11_translation_functions_agree.
+Print Assumptions C11_of_translation.
 Print Assumptions C11_no_overlap.
 Print Assumptions C11_refines_spec.
 Print Assumptions C11_convert.
